@@ -105,7 +105,7 @@ def run(cx):
     cx.rule("C14.R3", "growth decision sees enqueued work: execute() counts the job before Sender::send makes it visible, reads that counter afterwards, and grows whenever jobs > workers (busy - len >= c with c <= 1) and len < max")
     cx.rule("C14.R4", "counter pairing: one increment per job (producer side, none in the worker) and one decrement on every normal path from the job's return to the next dequeue")
     ex = cx.mir.one("varlink", EXEC)
-    from .roles import pool_worker
+    from .roles import job_calls, pool_worker
     wk = pool_worker(cx)
     cx.saw(ex); cx.saw(wk)
     cfg = Cfg(ex); du = DefUse(ex)
@@ -201,7 +201,7 @@ def run(cx):
     wcfg = Cfg(wk, unwind=False); wdu = DefUse(wk)
     wops = counter_ops(wk, wdu)
     winc = [s for k, s in wops if k == "inc"]; wdec = [s for k, s in wops if k == "dec"]
-    jobs = [t for t in wk.calls("=call_box") ] or [t for t in wk.calls() if t.callee.indirect]
+    jobs = job_calls(wk)
     recvs = wk.calls("=recv")
     if not jobs or not recvs: raise AnchorMissing("worker loop: job call or recv not found")
     total_inc = len(incs) + len(winc)
